@@ -16,6 +16,10 @@ import OsacaVerif.Gen.IsaDb_aarch64
   rolesdbdump <isa> <forms:Y>   roles / hidden operands / idiom flag / operation class of every loaded entry
   rolesdbcmp  <isa> <forms:Y>   is the generated `Gen.isaDb…` the same database as `loadDb forms`?
   rolesops                      the translated operation strings with the index of the first equal program
+  dgfull <isa> <flagdeps> <stlf> <pidx> <forms:Y> <kernel:Y>
+      the dependency graph from the PARSED operands: roles and register changes by `Model/Isa.lean`, graph by
+      `Model/DG.lean`;  kernel = L[ L[line, latency, latency_wo_load | N, is_load_flag, mnemonic | N, L[operand …]] … ]
+      reply: edge list as the `dg` op, or `raise` (a register-change query raises), `unsupported`, `hidden-mem`
 -/
 namespace OsacaVerif.Driver.Roles
 open OsacaVerif OsacaVerif.Proto OsacaVerif.Text OsacaVerif.Operand OsacaVerif.YCodec OsacaVerif.Isa
@@ -158,6 +162,53 @@ def firstDiff : Nat → List String → List String → Option Nat
   | i, a :: as, b :: bs => if a == b then firstDiff (i + 1) as bs else some i
   | i, _, _ => some i
 
+/-! ### the composed path: parsed operands → roles → graph -/
+
+def hasHiddenMem (s : Sem) : Bool :=
+  (s.src ++ s.dst ++ s.srcDst).any fun x => match x with
+    | .hid (.mem _ _ _ _) => true
+    | _ => false
+
+inductive Full where
+  | ok (i : DG.Ins)
+  | raise | unsupported | hiddenMem | bad
+
+def fullIns (isa : Isa) (db : List IsaEntry) : Y → Full
+  | .list [line, lat, latwo, isLd, mn, .list ops] =>
+    match insOfY (.list [mn, .list ops]) with
+    | none => .bad
+    | some q =>
+      let r := assignSrcDst isa db q.1 q.2
+      if hasHiddenMem r.sem then .hiddenMem else
+      match regChanges isa db q.1 q.2 r.sem false, regChanges isa db q.1 q.2 r.sem true with
+      | .ok ch, .ok chp =>
+        .ok { line := DGraph.yNat line, lat := DGraph.yRat lat,
+              latWoLoad := (match latwo with | .num x => some x | _ => none),
+              hasLd := r.hasLd, isLd := DGraph.yBool isLd,
+              src := r.sem.src.map toDG, dst := r.sem.dst.map toDG, srcDst := r.sem.srcDst.map toDG,
+              changes := ch.map (fun e => (e.1, toChange e.2)),
+              changesPost := chp.map (fun e => (e.1, toChange e.2)) }
+      | .error .unsupported, _ => .unsupported
+      | _, .error .unsupported => .unsupported
+      | _, _ => .raise
+  | _ => .bad
+
+def fullKernel (isa : Isa) (db : List IsaEntry) (k : List Y) : Except String (List DG.Ins) :=
+  k.foldr (fun y acc =>
+    match acc with
+    | .error e => .error e
+    | .ok l =>
+      match fullIns isa db y with
+      | .ok i => .ok (i :: l)
+      | .raise => .error "raise"
+      | .unsupported => .error "unsupported"
+      | .hiddenMem => .error "hidden-mem"
+      | .bad => .error "bad-query") (.ok [])
+
+def dgIsa : Isa → DG.Isa
+  | .x86 => .x86
+  | .a64 => .a64
+
 def handle (r : Req) : Option String :=
   match r.op, r.args with
   | "roles", [isa, forms, kernel] =>
@@ -187,6 +238,18 @@ def handle (r : Req) : Option String :=
             | some k => "differ " ++ toString k)
          | none => "load-error")
       | _, _ => "bad-request")
+  | "dgfull", [isa, fd, stlf, pidx, forms, kernel] =>
+    some (match C07.decodeIsa (field isa), decodeY forms, decodeY kernel with
+      | some i, some y, some (.list k) =>
+        (match loadDb Gen.operations (C07.formsOf y) with
+         | some db =>
+           (match fullKernel i db k with
+            | .ok ins =>
+              DGraph.edgesS (DG.create (dgIsa i) (fieldS fd == "1")
+                { stlf := DGraph.ratOf stlf, pIdx := DGraph.ratOf pidx } ins)
+            | .error e => e)
+         | none => "load-error")
+      | _, _, _ => "bad-request")
   | "rolesops", [] =>
     some (sep " " (Gen.operations.map fun x => enc x.1 ++ ":" ++ opClass x.2))
   | _, _ => none
